@@ -8,6 +8,7 @@ pub mod c03;
 pub mod c04;
 pub mod c05;
 pub mod c06;
+pub mod c07;
 pub mod c08;
 pub mod c09;
 pub mod c10;
@@ -57,6 +58,7 @@ registry! {
     "C04" => c04,
     "C05" => c05,
     "C06" => c06,
+    "C07" => c07,
     "C08" => c08,
     "C09" => c09,
     "C10" => c10,
